@@ -157,14 +157,19 @@ def evidence_dir():
     return d
 
 
+LAST_FALLBACK = {}  # result of the last bounded cross-check run by undecided_fallback (for the evidence file)
+
+
 def undecided_fallback(pid, tier, seed, known, log):
     """The deductive part could not decide (source outside the verified subset).  The
     executable postcondition is still evaluated on the real code over the bounded family: a
     concrete failing input is a violation whatever the state of the proof; none found leaves
     the run undecided (exit 2)."""
+    LAST_FALLBACK.clear()
     if not os.path.exists(os.path.join(VERIF, "oracles", pid + ".py")):
         return 2
     res = run_oracle(pid, "crosscheck", {"seed": seed, "n": 2000 if tier == "thorough" else 200, "known": [e for e in known if e.get("status", "open") == "open"]}, timeout=3000)
+    LAST_FALLBACK.update(res)
     if res.get("failed"):
         rp = os.path.join(VERIF, "replays", pid, "crosscheck.json")
         json.dump(res, open(rp, "w"), indent=1, default=str)
@@ -199,15 +204,18 @@ def check_property(pid, tier="quick", seed=0, verbose=True):
         vcs, info = build_vcs(prop, known, log)
     except Unsupported as e:
         log(f"UNDECIDED property={pid}: the current source is outside the verified subset: {e}")
-        write_evidence(pid, tier, seed, None, [], {}, time.time() - t_start, undecided=str(e))
-        return undecided_fallback(pid, tier, seed, known, log)
+        code = undecided_fallback(pid, tier, seed, known, log)
+        write_evidence(pid, tier, seed, None, [], {}, time.time() - t_start, undecided=str(e), violations=int(code == 1), extra={"crosscheck": dict(LAST_FALLBACK)})
+        return code
     except Exception as e:
         # An internal error of the VC generator on source it was not built for is a limitation of
         # the machinery, not a verdict: undecided.  (On the committed baseline tree this never
         # happens; `vf setup` self-tests that.)
         traceback.print_exc()
         log(f"UNDECIDED property={pid}: internal error of the VC generator ({type(e).__name__}: {e})")
-        return undecided_fallback(pid, tier, seed, known, log)
+        code = undecided_fallback(pid, tier, seed, known, log)
+        write_evidence(pid, tier, seed, None, [], {}, time.time() - t_start, undecided=f"internal error of the VC generator ({type(e).__name__}: {e})", violations=int(code == 1), extra={"crosscheck": dict(LAST_FALLBACK)})
+        return code
 
     # ---- guards -------------------------------------------------------------------
     if not [v for v in vcs if v.required]:
@@ -258,7 +266,9 @@ def check_property(pid, tier="quick", seed=0, verbose=True):
         # (never on the committed tree.  On a changed tree the contracts no longer fit the code --
         #  e.g. a loop was added or removed so invariants attach to other loops; the bounded
         #  run-time check can still exhibit a concrete failing input)
-        return 1 if undecided_fallback(pid, tier, seed, known, log) == 1 else 3
+        code = 1 if undecided_fallback(pid, tier, seed, known, log) == 1 else 3
+        write_evidence(pid, tier, seed, prop, vcs, info, time.time() - t_start, undecided="vacuity guard: " + "; ".join(vac_errors[:4]), solver_time=solver_time, violations=int(code == 1), extra={"crosscheck": dict(LAST_FALLBACK)})
+        return code
 
     # ---- classify -------------------------------------------------------------------
     failed, undecided = [], []
@@ -287,8 +297,9 @@ def check_property(pid, tier="quick", seed=0, verbose=True):
     missing = [n for n in baseline if n not in names_now and not n.endswith("#unrestricted") and ("/post." in n or ".inv." in n or n.startswith("lemma/") or "/raises." in n or "/frame." in n)]
     if missing and not os.environ.get("VF_UPDATE_BASELINE"):
         log(f"UNDECIDED property={pid}: obligations of the baseline were not generated (structure changed): {missing[:5]}")
-        write_evidence(pid, tier, seed, prop, vcs, info, time.time() - t_start, undecided="missing obligations: " + ", ".join(missing[:8]), solver_time=solver_time)
-        return undecided_fallback(pid, tier, seed, known, log)
+        code = undecided_fallback(pid, tier, seed, known, log)
+        write_evidence(pid, tier, seed, prop, vcs, info, time.time() - t_start, undecided="missing obligations: " + ", ".join(missing[:8]), solver_time=solver_time, violations=int(code == 1), extra={"crosscheck": dict(LAST_FALLBACK)})
+        return code
 
     # ---- known findings ---------------------------------------------------------------
     kf_lines = []
@@ -416,6 +427,16 @@ def write_evidence(pid, tier, seed, prop, vcs, info, wall, undecided=None, solve
     }
     if extra:
         ev["coverage"].update(extra)
+    if not req or not discharged:
+        # nothing generated / nothing discharged (only on a tree the contracts no longer fit; the
+        # run exits non-zero): this is not a proof record, so the proof keys are not claimed and
+        # the counts reported are those of the bounded run-time cross-check that stood in
+        cov = ev["coverage"]
+        cov["obligations_generated"], cov["obligations_discharged"] = cov.pop("obligations"), cov.pop("discharged")
+        cc = (extra or {}).get("crosscheck") or {}
+        cov["evaluations"] = int(cc.get("evaluations") or 0)
+        cov["distinct_nontrivial"] = int(cc.get("distinct") or 0)
+        cov["rule"] = "proof UNDECIDED on this tree; the counts are those of the bounded run-time cross-check of the executable postcondition on the real code: " + str(cc.get("rule", "not run"))
     with open(os.path.join(evidence_dir(), f"{pid}.json"), "w") as f:
         json.dump(ev, f, indent=1, default=str)
         f.write("\n")
